@@ -8,6 +8,7 @@ import (
 	"runtime"
 	"strings"
 	"sync"
+	"time"
 
 	pongo2 "github.com/flosch/pongo2/v6"
 )
@@ -52,8 +53,131 @@ func collectRaces(res *Result) {
 	res.hist(fmt.Sprintf("race-reports=%d", len(reports)-1))
 }
 
+// c05FailSites: the first failures of every failing filter site happen concurrently, from different
+// templates and lines; each execution's error must name its own site (and the race detector is watching)
+func c05FailSites(cfg Config, res *Result, rng *RNG) {
+	sites := failSites()
+	for _, s := range sites {
+		const k = 6
+		type job struct {
+			tpl  *pongo2.Template
+			src  string
+			l1   int
+			l2   int
+			want int
+			ctx  pongo2.Context
+		}
+		jobs := make([]job, 0, k)
+		for j := 0; j < k; j++ {
+			src, l1, l2 := failTemplate(s, rng.Intn(5), 1+rng.Intn(4))
+			set := pongo2.NewSet("f", &memLoader{files: map[string]string{}})
+			tpl, err := set.FromString(src)
+			if err != nil {
+				continue
+			}
+			first := rng.Bool()
+			want := l2
+			if first {
+				want = l1
+			}
+			jobs = append(jobs, job{tpl, src, l1, l2, want, failCtx(first)})
+		}
+		res.Cases++
+		res.DistinctNontrivial++
+		msgs := make([]string, len(jobs))
+		var wg sync.WaitGroup
+		start := make(chan struct{})
+		for j := range jobs {
+			wg.Add(1)
+			go func(j int) {
+				defer wg.Done()
+				defer func() { recover() }()
+				<-start
+				_, e := jobs[j].tpl.Execute(jobs[j].ctx)
+				msgs[j] = failCheck(e, s, jobs[j].want)
+			}(j)
+		}
+		close(start)
+		wg.Wait()
+		for j, m := range msgs {
+			if m != "" {
+				res.add(Finding{Kind: "oracle", Proj: "race", Sig: "c05-concurrent-error-differs", Case: fmt.Sprintf("src=%q (one of %d templates failing in %s at the same time)", jobs[j].src, len(jobs), s.expr), Impl: m, Model: "alone: the error names the filter that failed in this execution"})
+				break
+			}
+		}
+	}
+}
+
+// c05InFlight: more executions at the same moment than any per-execution limit of the engine
+// (macro depth, include nesting): each is parked inside an include / a macro / a loop body by a
+// context function until all have arrived; none may be affected by the others being in flight
+func c05InFlight(cfg Config, res *Result) {
+	const n = 1200
+	files := map[string]string{
+		"inner.tpl": "<{{ park() }}>",
+		"main.tpl":  `{% macro m(a) %}{% include "inner.tpl" %}{{ a }}{% endmacro %}{% for q in l %}{% include name %}{{ m(q) }}{% endfor %}`,
+	}
+	set := pongo2.NewSet("flight", &memLoader{files: files})
+	tpl, err := set.FromFile("main.tpl")
+	if err != nil {
+		res.add(Finding{Kind: "disagree", Proj: "harness", Sig: "c05-inflight-compile", Impl: err.Error()})
+		return
+	}
+	res.Cases++
+	res.DistinctNontrivial++
+	nopark := pongo2.Context{"l": []int{1}, "name": "inner.tpl", "park": func() string { return "p" }}
+	want := execOnce(tpl, nopark).String()
+	var arrived int64
+	var mu sync.Mutex
+	release := make(chan struct{})
+	allIn := make(chan struct{})
+	var once sync.Once
+	park := func() string {
+		mu.Lock()
+		arrived++
+		a := arrived
+		mu.Unlock()
+		if a >= n {
+			once.Do(func() { close(allIn) })
+		}
+		<-release
+		return "p"
+	}
+	outs := make([]string, n)
+	var wg sync.WaitGroup
+	for j := 0; j < n; j++ {
+		wg.Add(1)
+		go func(j int) {
+			defer wg.Done()
+			outs[j] = execOnce(tpl, pongo2.Context{"l": []int{1}, "name": "inner.tpl", "park": park}).String()
+		}(j)
+	}
+	select {
+	case <-allIn:
+	case <-time.After(20 * time.Second):
+	}
+	close(release)
+	wg.Wait()
+	bad := 0
+	first := ""
+	for _, o := range outs {
+		if o != want {
+			bad++
+			if first == "" {
+				first = o
+			}
+		}
+	}
+	res.hist(fmt.Sprintf("in-flight=%d", n))
+	if bad > 0 {
+		res.add(Finding{Kind: "oracle", Proj: "race", Sig: "c05-in-flight-executions-interfere", Case: fmt.Sprintf("%d executions of main.tpl parked inside an include at the same moment; files=%q", n, files), Impl: fmt.Sprintf("%d of %d differ, e.g. %s", bad, n, first), Model: "alone: " + want})
+	}
+}
+
 func suiteC05(cfg Config, res *Result) {
-	res.Rule = "grammar-generated programs over every modelled tag (with includes, lazy includes, macros, cycle, ifchanged, whitespace options) compiled once and executed from k in {2,4,8} goroutines at once under GOMAXPROCS in {1,2,8}, with equal and different contexts, while other goroutines compile/fetch from the same set (FromString, FromFile, FromCache); each goroutine through one of Execute / ExecuteBytes / ExecuteWriter / ExecuteWriterUnbuffered; oracle: every output equals the sequential output for its context, the bytes ExecuteBytes returned are still the same after further executions, and the race detector (harness built with -race) reports nothing; non-trivial = all; distinct by program"
+	c05FailSites(cfg, res, NewRNG(cfg.Seed^0xfa115))
+	c05InFlight(cfg, res)
+	res.Rule = "failing executions: the first failures of every failing filter site happen from 6 goroutines at once, in different templates and lines, each error naming its own site; 1200 executions parked at the same moment inside an include / macro / loop (no per-execution limit is shared between executions); grammar-generated programs over every modelled tag (with includes, lazy includes, macros, cycle, ifchanged, whitespace options) compiled once and executed from k in {2,4,8} goroutines at once under GOMAXPROCS in {1,2,8}, with equal and different contexts, while other goroutines compile/fetch from the same set (FromString, FromFile, FromCache); each goroutine through one of Execute / ExecuteBytes / ExecuteWriter / ExecuteWriterUnbuffered; oracle: every output equals the sequential output for its context, the bytes ExecuteBytes returned are still the same after further executions, and the race detector (harness built with -race) reports nothing; non-trivial = all; distinct by program"
 	n := 250
 	if cfg.Thorough() {
 		n = 4000
